@@ -1002,7 +1002,7 @@ impl<Service: crate::service::Service> WaitSet<Service> {
                     "{msg} {:?} since it is already attached.", attachment);
             }
             Err(ReactorAttachError::CapacityExceeded) => {
-                fail!(from self, with WaitSetAttachmentError::AlreadyAttached,
+                fail!(from self, with WaitSetAttachmentError::InsufficientCapacity,
                     "{msg} {:?} since it would exceed the capacity of {} of the waitset.",
                     attachment, self.capacity());
             }
